@@ -279,6 +279,7 @@ def cases(draw, plugin=False):
                           "files": draw(st.sampled_from([1, 1, 2, "two-folders"])),
                           "how": draw(st.sampled_from(["import_plugins", "user-code-after-first-cid"])),
                           "module": draw(st.sampled_from(["myplugins", "c20_recording_plugins"]))}
+        case["plugin"]["folder"] = draw(st.sampled_from(["plugins", "plugins", "plug[1]", "my plugins", "pl*gins?", "plüg"]))
         # how the plugin classes are built: on their own, with a subclass next to them, or from a mixin
         case["plugin"]["style"] = draw(st.sampled_from(recplugins.PLUGIN_STYLES))
         if case["plugin"]["files"] == "two-folders":
@@ -772,6 +773,9 @@ else:
     interface.import_plugins(sys.argv[2])
     for folder in case.get("more_folders", []):
         interface.import_plugins(folder)
+# whatever the interpreter's memory management does between importing the plugins and using them
+import gc
+gc.collect()
 cid = interface.Cid()
 cid.read("c20", case["cid_rows"])
 resolved = {"fields": [[type(f).__name__, type(f).__module__] for f in cid.field_formats],
@@ -787,7 +791,8 @@ def check_plugin_case(sub, case):
     plugin = case["plugin"]
     folder = tempfile.mkdtemp(prefix="c20-")
     try:
-        plugin_folder = os.path.join(folder, "plugins")
+        # what the folder is called says nothing about what is in it
+        plugin_folder = os.path.join(folder, plugin.get("folder", "plugins"))
         os.mkdir(plugin_folder)
         more_folders = []
         if plugin["files"] == "two-folders":
